@@ -696,6 +696,11 @@ class BufferAsyncCalls(Generic[T]):
             to be met before the function is called if it hasn't been
             already.
         """
+        # Arguments are put on the queue with call_soon_threadsafe: let
+        # the ones already submitted land before joining the queue. This
+        # used to rely on the join task below taking its first step later
+        # which isn't the case with e.g. asyncio.eager_task_factory
+        await aio.sleep(0)
         # Process all queued tasks
         # Create a task because some unknown bug on 3.7 blocks
         # infinitely sometimes if we await join directly
